@@ -21,6 +21,7 @@ HtypLenOk(e) == LET d == HtypDec(e.b)  r == e.res IN
 MsinOk(e) == LET d == MsinDec(e.b)  r == e.res IN
   /\ r.v = "ok" /\ r.mt = d.mt                                   \* message type and sub-type the layout prescribes
   /\ r.reenc_mt + B(d.verb) = e.b                                \* u8::from(&MessageType) | verbose bit
+  /\ r.leg2.pv = "msg" => (r.leg2.verb = d.verb /\ r.leg2.pmt = d.mt /\ r.leg2.reenc = e.b)     \* the same around four payload bytes
   /\ r.pv = "msg" => (r.verb = d.verb /\ r.pmt = d.mt /\ r.reenc = e.b)   \* through the parser and the writer: IF the parser returns a message
                                                                        \* (whether it accepts the canonical message around the byte is C02's subject)
 TiOk(e) == LET r == e.res IN
